@@ -165,7 +165,7 @@ func (vc *VC) isShared(lv *LVal) bool {
 			if len(parts) != 2 || lv.Space != 'O' {
 				continue
 			}
-			if !(strings.HasSuffix(lv.TK, "."+parts[0]) || strings.Contains(lv.TK, "."+parts[0]+"[")) {
+			if !(strings.HasSuffix(lv.TK, "."+parts[0]) || strings.HasSuffix(lv.TK, "."+parts[0]+"[]")) {
 				continue
 			}
 			ot := vc.eng.tkTypes[lv.TK]
